@@ -886,6 +886,14 @@ def enumerate_paths(prog, body, variant=None, entry=0, max_visits=2, inline=1, l
             if k == "switch":
                 do = t["discr"]
                 pl = do.get("copy") or do.get("move")
+                if pl is None and "const" in do and "int" in do["const"]:
+                    cv = int(do["const"]["int"])
+                    tgt = t["otherwise"]
+                    for v, b in t["targets"]:
+                        if v == cv:
+                            tgt = b
+                    bid = tgt
+                    continue
                 if pl is not None and not pl["p"] and pl["l"] in body.flag_locals:
                     dj = flag_diamond(body, t)
                     if dj is not None:
@@ -925,6 +933,13 @@ def enumerate_paths(prog, body, variant=None, entry=0, max_visits=2, inline=1, l
                             bid = j
                             continue
                 cond = prog.link(de)
+                if cond[0] == "const" and cond[3] is not None:
+                    tgt = t["otherwise"]
+                    for v, b in t["targets"]:
+                        if v == cond[3]:
+                            tgt = b
+                    bid = tgt
+                    continue
                 seen_t = set()
                 alts = [(v, b) for v, b in t["targets"]] + [("otherwise", t["otherwise"])]
                 for v, b in alts:
